@@ -429,20 +429,108 @@ def _wire(ctx, compare=True):
     return res
 
 
+# ------------------------------------------------------------------------------------------------
+# listings on the filesystem backends: the directory listed is the directory addressed, literally
+# ------------------------------------------------------------------------------------------------
+GLOB_TREE = [
+    (("private",), None), (("private", "secret.txt"), b"s"), (("pub",), None), (("pub", "x"), b"x"), (("pxb",), None), (("pxb", "y"), b"y"),
+    (("*",), None), (("p?b",), None), (("[p]rivate",), None), (("[p]rivate", "own.txt"), b"o"), (("pu[b]",), None), (("{pub,private}",), None),
+    (("~",), None), (("$HOME",), None), (("%s",), None), (("a", ), None), (("a", "*"), None), (("a", "b"), None), (("a", "b", "deep"), b"d"),
+]
+GLOB_DIRS = ["*", "p?b", "[p]rivate", "pu[b]", "{pub,private}", "~", "$HOME", "%s", "a/*", "a"]
+
+
+async def _glob_session(loop, backend, flavour):
+    import world as W
+    import spyio
+
+    spy = spyio.Spy()
+    wd = W.World(loop, [W.UserSpec("bob", None, home="/")], spy=spy, backend=backend)
+    await wd.start()
+    fails = []
+    try:
+        wd.set_tree(GLOB_TREE)
+        children = {}
+        for path, _ in GLOB_TREE:
+            children.setdefault("/".join(path[:-1]), set()).add(path[-1])
+        raw = await wd.raw_client()
+        await W.run_line(wd, raw, b"USER bob")
+        for d in GLOB_DIRS:
+            for how in ("relative", "absolute", "cwd"):
+                await W.run_line(wd, raw, b"CWD /")
+                if how == "cwd":
+                    await W.run_line(wd, raw, ("CWD " + d).encode())
+                    arg = ""
+                else:
+                    arg = d if how == "relative" else "/" + d
+                await W.run_line(wd, raw, b"EPSV")
+                await W.data_connect(wd, raw)
+                n0 = len(spy.log)
+                codes, crashed, out, listing = await W.run_line(wd, raw, (flavour + (" " + arg if arg else "")).encode())
+                want = sorted(children.get(d, set()))
+                if listing is None or sorted(listing) != want:
+                    fails.append("%s %r (%s) lists %r, the directory addressed holds %r (replies %r)" % (flavour, arg, how, listing, want, codes))
+                    continue
+                # every backend call of the listing is at or below the directory addressed
+                top = None
+                for _, name, p in spy.log[n0:]:
+                    for q in _paths_of((name, p)):
+                        if name == "list":
+                            top = q
+                        elif top is not None and name in ("stat", "exists", "is_file", "is_dir") and q != top and not q.startswith(top.rstrip("/") + "/"):
+                            fails.append("%s %r (%s): backend %s(%s) is not inside the directory listed (%s)" % (flavour, arg, how, name, q, top))
+        raw.close()
+        await loop.settle()
+    finally:
+        try:
+            await wd.stop()
+        except Exception:
+            wd.finish()
+    return fails
+
+
+def _glob_family(ctx):
+    import simnet
+
+    res = Result()
+    for backend in ("pathio", "async", "memory"):
+        for flavour in ("LIST", "MLSD"):
+            res.cases += 1
+            res.count("wire_listing_of_literal_names_" + backend)
+            res.distinct.add(("glob-names", backend, flavour))
+            try:
+                fails = simnet.run(_glob_session, backend, flavour)
+            except BaseException as e:  # noqa
+                res.disagreements.append({"correspondence": "C02 listing harness", "input": [backend, flavour], "impl": "%s: %s" % (type(e).__name__, e)})
+                continue
+            if fails:
+                res.oracle_failures.append({"input": {"kind": "literal-names-listing", "backend": backend, "flavour": flavour}, "what": fails[0], "signature": "C02:wire:listing-of-another-directory"})
+    return res
+
+
 def correspondence(ctx):
     r = _run(ctx)
     r.merge(_wire(ctx))
+    r.merge(_glob_family(ctx))
     return r
 
 
 def search(ctx, prior):
     r = _run(ctx, oracle_only=True)
     r.merge(_wire(ctx, compare=False))
+    r.merge(_glob_family(ctx))
     return r
 
 
 def replay(ctx, doc):
     i = doc["failure"]["input"]
+    if i.get("kind") == "literal-names-listing":
+        import simnet
+
+        fails = simnet.run(_glob_session, i["backend"], i["flavour"])
+        for f in fails[:5]:
+            print("implementation:", f)
+        return bool(fails)
     if "wire_plan" in i:
         plan = [tuple(x) for x in i["wire_plan"]]
         recs = _wire_job(plan)
